@@ -117,6 +117,8 @@ def returns_failure_only(body, from_bb, avoid=()):
         rv = a
         if rv['k'] == 'agg' and rv['agg'] == 'adt' and rv.get('variant') in ('Err', 'None'):
             continue
+        if rv['k'] == 'use' and _local_holds_failure(body, rv['op'], from_bb, reach, b):
+            continue
         return False, 'bb%d assigns a non-failure return value' % b
     # an assignment-free path?
     ab = {b for b, _ in assigns}
@@ -124,6 +126,37 @@ def returns_failure_only(body, from_bb, avoid=()):
     if any(body.blocks[b]['term']['k'] == 'return' for b in free):
         return False, 'a path from bb%d reaches return without assigning a failure' % from_bb
     return True, 'all %d returns reachable carry a failure' % len(rets)
+
+
+def _local_holds_failure(body, op, from_bb, reach, at_bb, depth=0):
+    """`_0 = move L`: on every path from from_bb to at_bb the last definition of L is a failure
+    (Err / None aggregate, from_residual result, or a move of such a local)"""
+    l = op_local(op)
+    if l is None or depth > 4:
+        return False
+    defs = [d for d in defuse(body).whole_defs(l)]
+    inreg = [d for d in defs if d[0] in reach]
+    if not inreg:
+        return False
+    # a path from from_bb to at_bb that avoids every in-region definition => value from outside
+    avoid = {d[0] for d in inreg} - {from_bb}
+    if from_bb not in {d[0] for d in inreg} and at_bb in body.reachable_from(from_bb, avoid=avoid):
+        return False
+    for (b, i, kind, payload, dproj) in inreg:
+        # only definitions that can reach at_bb matter
+        if at_bb not in body.reachable_from(b) :
+            continue
+        if kind == 'call':
+            if payload.callee == FROM_RESIDUAL:
+                continue
+            return False
+        rv = payload
+        if rv['k'] == 'agg' and rv['agg'] == 'adt' and rv.get('variant') in ('Err', 'None'):
+            continue
+        if rv['k'] == 'use' and _local_holds_failure(body, rv['op'], from_bb, reach, b, depth + 1):
+            continue
+        return False
+    return True
 
 
 def consume(body, c, depth=0):
@@ -189,7 +222,9 @@ def consume_local(body, l, ty, depth=0):
                 elif h2[0] in ('move', 'ref', 'discr', 'field'):
                     classes.append(('passed', 'borrowed'))
         elif k == 'discr':
-            classes.append(_match_class(body, l, how[1], ty))
+            mc = _match_class(body, l, how[1], ty)
+            if mc is not None:
+                classes.append(mc)
         elif k == 'field':
             # payload moved out after a discriminant test: covered by the 'discr' use
             pass
@@ -239,7 +274,7 @@ def _match_class(body, l, discr_local, ty):
             if okk:
                 return ('match', 'failure arm bb%d: %s' % (tgt, why))
             return ('match-swallow', 'failure arm bb%d continues to a success return: %s' % (tgt, why))
-    return ('unknown', 'discriminant read but no switch found')
+    return None    # a discriminant read that feeds no switch (drop elaboration artefact): not a use
 
 
 ACCEPT = {'tail', 'try', 'match', 'combinator', 'guarded', 'unwrap'}
